@@ -170,13 +170,15 @@ def run(ctx):
                 progs = [[("write", "/W0.BIN", (b"A" * 1500).hex())], [("write", "/E/W1.BIN", (b"B" * 1500).hex())]]
             if pi == 1:
                 progs = [[("makedir", "/dir one/new a")], [("makedir", "/dir one/new b")]]
+            if pi == 2:      # a handle write and a namespace operation in ONE directory (they must exclude each other: C19-m3)
+                progs = [[("write", "/dir one/W2.BIN", (b"C" * 1500).hex())], [("create", "/dir one/C2.TXT")]]
             seq = sequential_trees(img, progs)
             label = f"fat{ft}-prog{pi}"
             rep0 = dict(volume=meta, programs=progs)
             sc = one_schedule(ctx, img, meta, progs, seq, S.preempt_policy({}), False, label, dict(rep0, preempt={}))
             n = sc.step
             pts = list(range(1, n + 1))
-            cap = ctx.scale(60, 400)
+            cap = ctx.scale(60 if pi != 2 else 700, 400 if pi != 2 else 3000)     # the handle-write / namespace-operation program: every single pre-emption point
             if len(pts) > cap:
                 pts = sorted(rng.sample(pts, cap))
             before = len(ctx.violations)
@@ -185,14 +187,15 @@ def run(ctx):
                 if len(ctx.violations) > before + 2:
                     break
             # one pre-emption at distinct source lines of the shared in-memory tree (see C18), for the two fixed programs; thorough: all programs
-            if pi in (0, 1) or ctx.tier == "thorough":
+            if pi in (0, 1, 2) or ctx.tier == "thorough":
                 scb = S.Sched(len(progs), S.preempt_policy({}))
                 scb.record_kinds = True
                 fb, _ = mount_rw(img, scb)
                 S.run_threads(scb, [lambda p=p: do_ops(fb, p) for p in progs], pyfat_dir=PYFAT_DIR, line_mode=True, timeout=60)
                 for t in range(len(progs)):
-                    lines = [k for k in scb.kinds.get(t, {}) if k.startswith("line:") and k.split(":")[1] in C18.TREE_FUNCS]
-                    cap_l = ctx.scale(40, 400)
+                    every = pi == 2 and ctx.tier == "thorough"      # every distinct line, not only the tree module's
+                    lines = [k for k in scb.kinds.get(t, {}) if k.startswith("line:") and (every or k.split(":")[1] in C18.TREE_FUNCS)]
+                    cap_l = ctx.scale(40 if not every else 120, 400 if not every else 2000)
                     if len(lines) > cap_l:
                         lines = rng.sample(lines, cap_l)
                     for k in lines:
